@@ -22,7 +22,7 @@ TRUSTED_EXTRA = ["Python implementation of the WGSL layout rules (lib/structgen.
 
 
 def cases(rng, tier):
-    return structcases.cases(rng, tier)
+    return structcases.cases(rng, tier, big_arrays=True)
 
 
 ELIGIBLE = lambda c: not (c["opts"].get("mv") == "Nalgebra" and c["opts"].get("encase"))
